@@ -44,6 +44,8 @@ func (p *failingProxy) RoundTrip(r *http.Request) (*http.Response, error) {
 	switch kind {
 	case "conn-error":
 		return nil, fmt.Errorf("dial tcp: connection refused")
+	case "timeout":
+		return nil, timeoutErr{}
 	case "500-body":
 		return mk(500, "whoops")
 	case "503-empty":
@@ -66,13 +68,20 @@ func (p *failingProxy) RoundTrip(r *http.Request) (*http.Response, error) {
 	return mk(500, "?")
 }
 
+// timeoutErr: what a list call ends in when the proxy hangs or is unreachable (net.Error with Timeout() true).
+type timeoutErr struct{}
+
+func (timeoutErr) Error() string   { return "i/o timeout" }
+func (timeoutErr) Timeout() bool   { return true }
+func (timeoutErr) Temporary() bool { return true }
+
 // suitePollFail (C08): the real polling loop against a proxy that keeps failing in one way.
 // Delays double from about 1 ms, so a window of W ms holds about log2(W) list calls; a loop that
 // treats the failure as a success (or sleeps nothing) makes thousands.
 func suitePollFail(e *vh.Env) {
 	e.Result.Rule = "the real pollForNewRequests loop for a 500 ms window against a proxy whose list endpoint fails in one fixed way (connection error, 500 with body, 502/503/401 with an empty body, 404 with a JSON body, 200 with a non-JSON or non-list body); the number of list calls must stay within the doubling schedule (at most 14) and every gap after the third call must be at least 1 ms; non-trivial = every failure kind"
 	*proxy = "http://proxy.invalid/"
-	kinds := []string{"conn-error", "500-body", "503-empty", "502-empty", "404-json", "401-empty", "200-garbage", "200-object"}
+	kinds := []string{"conn-error", "timeout", "500-body", "503-empty", "502-empty", "404-json", "401-empty", "200-garbage", "200-object"}
 	for i, kind := range kinds {
 		if !e.Want(i) {
 			continue
